@@ -49,7 +49,7 @@ def alphabet(tier):
               "FAKE_CI 90 5", "FAKE_CI -10 0", "FAKE_CI 7", "FAKE_CI", "FAKE_CI 1 2 3", "FAKE_CI 0 -2",
               "FAKE_DROP -1", "FAKE_DROP 0", "FAKE_DROP 1", "FAKE_DROP 2", "FAKE_DROP 1 -1", "FAKE_DROP 1 0",
               "FAKE_DROP 1 1", "FAKE_DROP 2 3", "FAKE_DROP -1 3", "FAKE_DROP", "FAKE_DROP 1 2 3",
-              "FAKE_TRXC_DELAY 0", "FAKE_TRXC_DELAY 200", "FAKE_TRXC_DELAY",
+              "FAKE_TRXC_DELAY 0", "FAKE_TRXC_DELAY 200", "FAKE_TRXC_DELAY", "FAKE_TRXC_DELAY -1",
               "SETSLOT 1 7", "SETSLOT 0 1 2 3", "ECHO", "HANDOVER 1 2", "NOHANDOVER 1 2", "SETRXGAIN 10", "ADJPOWER -2",
               "SETTSC 7", "SETBSIC 63", "RESET", "FOO_BAR 1 2 3"]:
         c(s)
